@@ -393,14 +393,25 @@ def c14_r1(ctx):
 def c14_r2(ctx):
     repo = ctx.repo
     ar = repo.func("client_generators.custom_arguments:ArgumentGenerator._accumulate_return_arguments")
-    asg = [st for st in walk_no_nested(ar.node) if isinstance(st, ast.Assign) and is_name(st.targets[0], "constant_value")]
-    if len(asg) != 1:
-        raise AnalysisError("_accumulate_return_arguments: type string assignment not found")
-    txt = norm(asg[0].value)
+    # the string emitted under the "type" key of the argument dict, per required-ness scenario (symbolic, so the
+    # conditional may be an expression, an if statement or a helper)
+    txts = []
+    for req in (True, False):
+        outs = Interp(ar, lambda e, req=req: (req if norm(strip_pre(e)) == "is_required" else None), is_effect=lambda c: norm(c.func) == "return_arguments_values.append").run()
+        for o in outs:
+            for eff in o.effects:
+                for c in ast.walk(strip_pre(eff)):
+                    if isinstance(c, ast.Call) and dotted(c.func) == "generate_dict":
+                        vals = kw(c, "values")
+                        if isinstance(vals, ast.List) and vals.elts and isinstance(vals.elts[0], ast.Call) and vals.elts[0].args:
+                            txts.append(norm(vals.elts[0].args[0]))
+    if len(txts) < 2:
+        raise AnalysisError("_accumulate_return_arguments: emitted type string not found")
+    txt = " | ".join(sorted(set(txts)))
     from_final = "final_type.name" in txt and "str(" not in txt
     ctx.check(not from_final, key(ar, "variable type string"),
               f"the variable's declared type is `{txt}`: it is built from the *named* type (get_final_type) plus at most one `!`, so list wrappers and inner non-null are lost "
-              "(`ids: [ID!]!` is declared as `$ids_0: ID!`) and the document is invalid", ar.loc(asg[0]), okmsg="variable type string keeps list / non-null wrappers")
+              "(`ids: [ID!]!` is declared as `$ids_0: ID!`) and the document is invalid", ar.loc(), okmsg="variable type string keeps list / non-null wrappers")
 
 
 @rule("C14.R3", "builder objects are not shared between operations", min_instances=1)
@@ -542,7 +553,11 @@ def c14_r7(ctx):
     ctx.check(good, key(ba, "document"), "the document is not one OperationDefinitionNode(operation, name, variable_definitions, selection_set)", ba.loc(), okmsg="DocumentNode([OperationDefinitionNode(operation, name, variable_definitions, selections)])")
     # runtime field node: alias and name
     bf = repo.func(BO + "GraphQLField._build_field_name")
-    ctx.check(norm(bf.node.body[-1]) == "return f'{self._alias}: {self._field_name}' if self._alias else self._field_name", key(bf, "alias"), "field node name is not `alias: name` / `name`", bf.loc(), okmsg="field node: 'alias: name' or 'name'")
+    got = {}
+    for al in (True, False):
+        outs = Interp(bf, lambda e, al=al: (al if norm(strip_pre(e)) in ("self._alias", "self._alias is not None") else None)).run()
+        got[al] = sorted({norm(strip_pre(o.value)) for o in outs if o.kind == "return"})
+    ctx.check(got[True] == ["f'{self._alias}: {self._field_name}'"] and got[False] == ["self._field_name"], key(bf, "alias"), f"field node name is not `alias: name` / `name`: {got}", bf.loc(), okmsg="field node: 'alias: name' or 'name'")
 
 
 # ====================================================================== hook firing order vs. plugin state
